@@ -107,7 +107,7 @@ def detect(pid, tier="quick", only=""):
             checks = meta.get("run_checks") or [pid]
             results = meta.get("detected_by", {})
             for cid in checks:
-                rc, out = sh(f"cd /verif && ./check {cid} {tier}", env=dict(os.environ), timeout=7200)
+                rc, out = sh(f"cd /verif && timeout 2400 ./check {cid} {tier}", env=dict(os.environ), timeout=2700)
                 sigs = sorted(set(re.findall(r"^violation (\S+)", out, re.M)))
                 pinned = re.findall(r"^pinned replay (\S+) fails", out, re.M)
                 verdict = {0: "missed", 1: "caught"}.get(rc, f"harness-error({rc})")
